@@ -19,6 +19,7 @@ pub mod c08_scalar;
 pub mod c08_steps;
 pub mod c_scalar;
 pub mod c17_args;
+pub mod c17_inject;
 pub mod c17_matchers;
 pub mod c18_location;
 pub mod c19_config;
